@@ -835,6 +835,7 @@ Lemma new_frame_unfold data order enums :
     if negb (Nat.eqb (length order') (length data)) then Ok (mkFrame [] [] true)
     else if negb (forallb (fun n => match assocb n data with Some _ => true | None => false end) order')
     then Ok (mkFrame [] [] true)
+    else if negb (nodup_bytes order') then Ok (mkFrame [] [] true)
     else match ofold (nf_step data enums) order' ([], 0, []) with
          | Ok (cs, len, used) =>
              if negb (forallb (fun kv => existsb (bytes_eqb (fst kv)) used) enums) then Ok (mkFrame [] [] true)
@@ -897,11 +898,12 @@ Proof.
 Qed.
 
 Lemma enum_new_ok zs vs :
-  length vs <= 255 -> (forall s, In (Some s) zs -> In s vs) ->
+  length vs <= 255 -> NoDup vs -> (forall s, In (Some s) zs -> In s vs) ->
   exists d vals strict, enum_new zs vs = Ok (ECol d vals strict).
 Proof.
-  intros Hl Hin. rewrite enum_new_unfold. change (N.to_nat c_maxCardinality) with 255.
-  destruct (255 <? length vs) eqn:E; [apply Nat.ltb_lt in E; lia|]. cbv zeta.
+  intros Hl Hnd Hin. rewrite enum_new_unfold. change (N.to_nat c_maxCardinality) with 255.
+  destruct (255 <? length vs) eqn:E; [apply Nat.ltb_lt in E; lia|].
+  rewrite (proj2 (nodup_bytes_spec vs) Hnd). cbv zeta. cbn [negb].
   destruct (enum_fold_ok (negb (length vs =? 0)) vs zs [] Hin) as [acc' Hacc]. rewrite Hacc.
   cbn [obind fst snd]. eexists _, _, _. reflexivity.
 Qed.
@@ -929,7 +931,7 @@ Definition is_string_col (c : coldata) : bool :=
 (* one column: the data handed to New is accepted and the new column reads back, through the identity index,
    exactly the cells the view of the old column returned *)
 Lemma rebuild_col c index xs :
-  omap (cell_at c) index = Ok xs -> col_wf c = true ->
+  omap (cell_at c) index = Ok xs -> col_wf c = true -> enum_table_nodup c = true ->
   exists d c', newdata_of_cells (col_type c) xs = Ok d
     /\ is_string_data d = is_string_col c
     /\ create_column d (enum_decl c) = Ok c'
@@ -937,7 +939,7 @@ Lemma rebuild_col c index xs :
     /\ col_type c' = col_type c /\ col_len c' = length xs
     /\ omap (cell_at c') (seq 0 (length xs)) = Ok xs.
 Proof.
-  intros H Hwf. pose proof (col_cells_shape c index xs H) as S.
+  intros H Hwf Hndt. pose proof (col_cells_shape c index xs H) as S.
   destruct c as [d0|d0|d0|d0|d0 vs st]; cbn [col_type] in S; destruct S as (zs & ->);
     unfold newdata_of_cells; cbn [col_type].
   - rewrite (omap_prj_inj CInt) by reflexivity. eexists _, (ICol zs). cbn [obind].
@@ -951,7 +953,8 @@ Proof.
   - rewrite (omap_prj_inj CEnum) by reflexivity. cbn [obind enum_decl create_column].
     simpl in Hwf. apply andb_true_iff in Hwf as [_ Hl]. apply Nat.leb_le in Hl.
     change (N.to_nat c_maxCardinality) with 255 in Hl.
-    destruct (enum_new_ok zs vs Hl (enum_cells_declared d0 vs st index zs H)) as (d & vals & strict & Hnew).
+    cbn [enum_table_nodup] in Hndt. apply nodup_bytes_spec in Hndt.
+    destruct (enum_new_ok zs vs Hl Hndt (enum_cells_declared d0 vs st index zs H)) as (d & vals & strict & Hnew).
     destruct (enum_new_decode zs vs d vals strict Hnew) as (_ & _ & _ & Hlen & Hread).
     exists (DStrPtrs zs), (ECol d vals strict). cbn [create_column enum_decl]. rewrite Hnew.
     repeat split; try reflexivity; try discriminate.
@@ -977,7 +980,8 @@ Definition rebuild_one (f : frame) (nc : bytes * coldata) : outcome (bytes * new
 
 Lemma rebuild_data_ok f :
   NoDup (col_names f) ->
-  (forall nc, In nc (cols f) -> col_wf (snd nc) = true /\ exists xs, omap (cell_at (snd nc)) (ix f) = Ok xs) ->
+  (forall nc, In nc (cols f) -> col_wf (snd nc) = true /\ enum_table_nodup (snd nc) = true
+                                /\ exists xs, omap (cell_at (snd nc)) (ix f) = Ok xs) ->
   exists data, rebuild_data f = Ok data
     /\ Forall2 (fun nc kv => fst kv = fst nc /\ exists c', col_rebuilt (ix f) (snd nc) (snd kv) c') (cols f) data.
 Proof.
@@ -989,8 +993,8 @@ Proof.
   { induction cs as [|[n c] cs IH]; intro Hsub; [exists []; split; [reflexivity|constructor]|].
     destruct IH as (data & Hdata & HF); [intros nc Hin; apply Hsub; right; exact Hin|].
     pose proof (Hsub (n, c) (or_introl eq_refl)) as Hin.
-    destruct (Hcols (n, c) Hin) as (Hwf & xs & Hxs). cbn [snd] in Hwf, Hxs.
-    destruct (rebuild_col c (ix f) xs Hxs Hwf) as (d & c' & Hd & Hs & Hc & Hany & Hty & Hlen & Hread).
+    destruct (Hcols (n, c) Hin) as (Hwf & Hndt & xs & Hxs). cbn [snd] in Hwf, Hndt, Hxs.
+    destruct (rebuild_col c (ix f) xs Hxs Hwf Hndt) as (d & c' & Hd & Hs & Hc & Hany & Hty & Hlen & Hread).
     assert (Hone : rebuild_one f (n, c) = Ok (n, d)).
     { unfold rebuild_one, frame_view_slice, get_view. cbn [fst snd].
       pose proof (lookup_col_nodup f (n, c) Hnd Hin) as Hl. cbn [fst snd] in Hl. rewrite Hl.
@@ -1121,15 +1125,18 @@ Qed.
    as in f) has exactly the table of f, hence is Equal to f (both ways) *)
 Theorem rebuild_spec f t :
   wf_frame f = true -> abs f = Ok t -> NoDup (col_names f) -> forallb check_name (col_names f) = true ->
+  enum_tables_nodup f = true ->
   exists g, rebuild f = Ok g /\ ferr g = false /\ ix g = seq 0 (length (trows t)) /\ abs g = Ok t
             /\ equals g f = Ok true /\ equals f g = Ok true.
 Proof.
-  intros Hwf Ht Hnd Hnames. destruct (abs_ok f t Ht) as (R & N & T).
+  intros Hwf Ht Hnd Hnames Hndt. destruct (abs_ok f t Ht) as (R & N & T).
   assert (Hcols : forall nc, In nc (cols f) ->
-            col_wf (snd nc) = true /\ exists xs, omap (cell_at (snd nc)) (ix f) = Ok xs).
-  { intros nc Hin. split.
+            col_wf (snd nc) = true /\ enum_table_nodup (snd nc) = true
+            /\ exists xs, omap (cell_at (snd nc)) (ix f) = Ok xs).
+  { intros nc Hin. split; [|split].
     - unfold wf_frame in Hwf. apply andb_true_iff in Hwf as [Hc _]. rewrite forallb_forall in Hc.
       specialize (Hc nc Hin). apply andb_true_iff in Hc as [_ Hc]. exact Hc.
+    - unfold enum_tables_nodup in Hndt. rewrite forallb_forall in Hndt. apply (Hndt nc Hin).
     - destruct (In_nth_error _ _ Hin) as [j Hj]. destruct nc as [n c].
       eexists. apply (rows_of_column _ _ _ _ Hj _ _ R). }
   destruct (rebuild_data_ok f Hnd Hcols) as (data & Hdata & HF).
@@ -1155,7 +1162,8 @@ Proof.
     2:{ symmetry. apply forallb_forall. intros n Hn. rewrite <- Hdn in Hn.
         apply in_map_iff in Hn as ([k d] & <- & Hkd). cbn [fst].
         rewrite (assocb_nodup k d data) by (rewrite ?Hdn; assumption). reflexivity. }
-    cbn [negb]. cbv iota. unfold col_names at 1. rewrite Hloop.
+    cbn [negb]. cbv iota. rewrite (proj2 (nodup_bytes_spec (col_names f)) Hnd). cbn [negb]. cbv iota.
+    unfold col_names at 1. rewrite Hloop.
     replace (forallb (fun kv : bytes * list bytes => existsb (bytes_eqb (fst kv)) used) (rebuild_enums f)) with true.
     2:{ symmetry. apply forallb_forall. intros kv Hkv. apply existsb_bytes_true.
         destruct (rebuild_enums_names f (fst kv) (in_map fst _ _ Hkv)) as (nc & Hnc & <- & Hdecl).
